@@ -89,11 +89,22 @@ def run(prog, ctx):
         sub = _Ctx(ctx.prop, ctx.tier, prog)
         _C11.a7(prog, sub)
         for ob in sub.obs:
-            if "econf_getGroups" in ob.instance:
+            if "econf_getGroups" in ob.instance or "econf_getKeys" in ob.instance:
                 ob.rule = "M13"
+                ctx.obs.append(ob)
+            elif "section name is looked up" in ob.instance:
+                # the merge pairs sections by strcmp(); the group list its copies are entered into must use the same equality,
+                # or a section spelled differently is "new" for the merge and "known" for the list
+                ob.rule = "M15"
+                ob.instance = "the merge and the group list agree on what the same section is: " + ob.instance
                 ctx.obs.append(ob)
     except Inconclusive as e:
         ctx.inconclusive("M13", "section listing of a merged object", "", str(e))
+    # ---- M15 "exactly one visible value: the override's": the merge pairs entries by equality of section and key, and the value a
+    # caller then sees is the one find_key() returns - the first entry that EQUALS the names asked for (= C11.A4)
+    from rules import common as _common
+    _common.import_obligations(ctx, prog, [_C11.a4, _C11.a4_no_entry_passed_over], "M15", "the value seen after a merge is the first equal entry: ",
+                               what="lookup of the entry")
     # ---- M1 ----------------------------------------------------------------------------------------
     ma = ModAnalysis(prog, indirect_targets=indirect_table(prog))
     s = ma.summary(MERGE)
